@@ -860,6 +860,7 @@ func runC02(c *Ctx) {
 		c.Note("violation:" + x.v.key)
 	}
 	c02Correspondence(c, cases, outs)
+	c02SymSuite(c)
 }
 
 type c02Witness struct {
